@@ -288,7 +288,7 @@ def slice_session(ctx):
 def slice_session_cache(ctx):
     """G-hist x cache kinds (C17): a disagreement counts only if the same history WITHOUT cache agrees
     (otherwise it is C11's business)"""
-    lines, descr = _sessions(ctx, 'histc', sz(ctx, 1200, 16000), ['dict', 'lru2', 'evict'])
+    lines, descr = _sessions(ctx, 'histc', sz(ctx, 1200, 16000), ['dict', 'lru2', 'evict', 'ddict', 'readthrough'])
     io, mo, _, dt = corr.compare(lines)
     d0 = _session_cmp(lines, io, mo)
     d = []
@@ -447,6 +447,12 @@ def slice_name_lookup(ctx):
             src = r.choice([f'"yes" if {kw} else "no"', f'x = {kw}', f'[{kw}]', f'{kw}', f'try_apply(w => {kw}, 0)', f'len({kw})',
                             '"Hello, %user% and %a%!"', '"%a%"', "'%a b% %b%'", '"100% %a% 50%"', 'r"%a%"', 'x = "%user.name%"; x', '"a" + "%b%"'])
             ent += ' ' + ' '.join(f'(S:{hx(w)} I:{90 + j})' for j, w in enumerate(['for', 'while', 'elif', 'break', 'continue', 'def', 'raise', 'b%']))
+        if r.random() < 0.12:
+            # names bound to STRINGS that happen to spell other names (of builtins, of host bindings): a string is data, never
+            # an alias to be looked up
+            ent += f' (S:{hx("size")} S:{hx("len")}) (S:{hx("alias")} S:{hx("a")}) (S:{hx("fn")} S:{hx("user")}) (S:{hx("secret")} H:probe)'
+            src = r.choice(['size(order)', 'order | size', 'order.size()', 'alias', 'alias + 1', 'fn()', 'g = "secret"; g()', 'g = "secret"; g(1)',
+                            'try_apply(w => size(order), 0)', 'map(order, size)', 'h = "len"; h(order)', 'k = "a"; [k, a]', 'apply(size, order)'])
         cases.append((gens2.eval_line(src, ent), src))
     return _eval_slice('name_lookup', cases, '%...% names with dots / blanks / operators whose parts are bound by the host, in every '
                        'syntactic role; result, error class and names-after compared')
